@@ -20,7 +20,7 @@ ASSUMPTIONS = ["reference validators in mc/ref/fields.py", "declared defaults ar
 
 
 def bounds(tier):
-    return {"shapes": W.SHAPES, "leaves": [l for l in W.catalogue() if not l.endswith("-rawdflt")] if tier == "thorough" else W.quick_leaves() + ["list-int-cd", "dict-typed-cd", "list-bytes"],
+    return {"shapes": W.SHAPES, "leaves": [l for l in W.catalogue() if not l.endswith("-rawdflt")] if tier == "thorough" else W.quick_leaves() + ["list-int-cd", "dict-typed-cd", "list-bytes", "dict-any"],
             "depth": 3 if tier == "thorough" else 2}
 
 
